@@ -29,6 +29,15 @@ the callback: a key that a message class defaults is present in every message
 of that class, so a callback that recognises "untagged" by the absence of
 `origin` never tags such a message; decided by evaluating the callback on the
 defaults of every class and on the corresponding dict message.
+
+R16.9 is the agreement between the constructors / construction sites of the
+messages that must travel (RPC request and reply) and the forwarders: `fwd`
+and `origin` of a received message are rewritten on the way (origin stamped,
+flag cleared), so a reply whose constructor copies them from its request is
+not forwarded from the side of the handler.  The constructor is interpreted
+for the request as it arrives on the publishing side and - after the two
+forwarders, evaluated by value - on another side; the resulting items must
+pass the local -> proxy forwarder.
 """
 
 import ast
@@ -1226,6 +1235,19 @@ def r16_3(prog, rep, rid='R16.3', tier='quick'):
     for v in (True, False):
         pubs = _published(prog, rep, badv, base, state_ch, 'update',
                           {'fwd': v})
+        if pubs and any(x is UNK for _, x in pubs) and 'state' in badv.params:
+            # the flag of the message may depend on the target state: decide
+            # it per state (none given, a state that is not final, each final
+            # state)
+            def const(txt):
+                return prog.fold(badv.module, ast.parse(txt, mode='eval').body,
+                                 base)
+            final, other = const('rps.FINAL'), const('rps.NEW')
+            if isinstance(final, (list, tuple)) and isinstance(other, str):
+                pubs = []
+                for st in [None, other] + list(final):
+                    pubs += _published(prog, rep, badv, base, state_ch,
+                                       'update', {'fwd': v, 'state': st})
         if not pubs or any(x is UNK for _, x in pubs):
             raise AnalysisError('UNRECOGNISED-IDIOM %s: publication of the '
                                 "{'cmd': 'update'} message not found / not "
@@ -1382,6 +1404,10 @@ def r16_3(prog, rep, rid='R16.3', tier='quick'):
                 if val is UNKNOWN:
                     # not a constant: R16.9 evaluates it for the messages
                     # it may be read from (or says that it is not decided)
+                    rep.ok(rid, m.rel, 'fwd item of %s named at the '
+                           'construction site, not a constant: its values '
+                           'are decided by R16.9' % cname,
+                           'src/radical/pilot/%s:%d' % (m.rel, c.lineno))
                     continue
                 rep.check(val is True, rid, m.rel, '%s constructed with '
                           'fwd=True (%s)' % (cname, 'class default' if e is
@@ -3090,7 +3116,14 @@ def run(prog, rep, tier):
         'same source as the value stamped into untagged messages (R16.7); '
         'the endpoint table Proxy._worker reports to the sessions gives, for '
         'each proxy channel, the addr_* endpoints of the bridge created for '
-        'that channel, each under its own key (R16.8).')
+        'that channel, each under its own key (R16.8); an RPC request / '
+        'reply constructed (class constructor of messages.py interpreted by '
+        'value, then ru.TypedDict: defaults, from_dict, keywords) from a '
+        'request as it arrives on the publishing side or, rewritten by the '
+        'two forwarders, on another side holds protocol items with which '
+        'the local -> proxy forwarder puts it on the proxy channel (R16.9); '
+        'when the flag of the update message depends on the target state, '
+        'it is decided per state (R16.3).')
     rep.undecided = ('delivery by the zmq bridges and the proxy (trusted); '
         'that the pilot ids handed to the agents differ; which other messages should '
         'carry the forward flag (policy, listed as information in the '
@@ -3122,6 +3155,11 @@ def run(prog, rep, tier):
         'two attributes of the session with different writers hold '
         'different values (the session id, the role ... are not the side '
         'identity)',
+        'ru.TypedDict.__init__(from_dict, **kwargs) fills a new message '
+        'with the class defaults, then from_dict, then the keywords; a '
+        'parameter handed to the constructor of a reply, from which the '
+        'constructor reads fwd / origin, is a message that was received '
+        'from the pubsub (the request)',
         'clearing the forward flag before the put is defence in depth (the '
         'origin test alone prevents re-forwarding) and reported as '
         'information only',
@@ -3500,6 +3538,142 @@ SILENT += [
         (_X, _PX_TABLE, "            cfg = {'proxy_control_pubsub': self._endpoints(proxy_cp),\n                   'proxy_state_pubsub'  : self._endpoints(proxy_sp),\n                   'proxy_task_queue'    : {'addr_put': str(proxy_tq.addr_put),\n                                            'addr_get': str(proxy_tq.addr_get)}}\n")]),
     dict(name='proxy table: bridge reached through a second local', edits=[
         (_X, _PX_TABLE, "            state_bridge = proxy_sp\n" + _PX_TABLE.replace("str(proxy_sp.addr_sub)", "str(state_bridge.addr_sub)"))]),
+]
+
+
+# ------------------------------------------------------------------------------
+# R16.9 (seed C16-i5): protocol items of a reply inherited from its request
+#
+_RES_UID = "            from_dict['uid'] = rpc_req['uid']\n"
+_RES_NEW = "            if not from_dict:\n                from_dict = dict()\n"
+_RES_SUPER = "        super().__init__(from_dict, **kwargs)\n"
+_RES_CTOR = "        if rpc_req:\n" + _RES_NEW + "\n" + _RES_UID + "\n" + _RES_SUPER
+_RES_SITE = "        rpc_res = RPCResultMessage(rpc_req=msg, val=val, out=out, err=err, exc=exc)\n"
+_RPC_AT = "    # --------------------------------------------------------------------------\n    #\n    def register_rpc_handler(self, cmd, handler, rpc_addr=None):\n"
+_CLEAR = "                msg['fwd'] = False\n"
+
+MUTATIONS += [
+    dict(name='R16.9 seed C16-i5: the reply inherits the forward flag of its request', rules=('R16.9',), edits=[
+        (_M, _RES_UID, _RES_UID + "            from_dict['fwd'] = rpc_req['fwd']\n")]),
+    dict(name='R16.9 reply inherits the flag, read with get() and a default', rules=('R16.9',), edits=[
+        (_M, _RES_UID, _RES_UID + "            from_dict['fwd'] = rpc_req.get('fwd', True)\n")]),
+    dict(name='R16.9 reply inherits the flag, read as an attribute of the request', rules=('R16.9',), edits=[
+        (_M, _RES_UID, "            from_dict['fwd'] = rpc_req.fwd\n" + _RES_UID)]),
+    dict(name='R16.9 reply inherits the origin tag of its request', rules=('R16.9',), edits=[
+        (_M, _RES_UID, _RES_UID + "            from_dict['origin'] = rpc_req.get('origin')\n")]),
+    dict(name='R16.9 reply starts as a copy of all items of the request', rules=('R16.9',), edits=[
+        (_M, _RES_NEW, "            if not from_dict:\n                from_dict = dict(rpc_req)\n")]),
+    dict(name='R16.9 reply inherits the flag through the keyword items', rules=('R16.9',), edits=[
+        (_M, _RES_UID, _RES_UID + "            kwargs['fwd'] = rpc_req['fwd']\n")]),
+    dict(name='R16.9 flag of the request stored into the reply after the base constructor', rules=('R16.9',), edits=[
+        (_M, _RES_SUPER, _RES_SUPER + "\n        if rpc_req:\n            self['fwd'] = rpc_req['fwd']\n")]),
+    dict(name='R16.9 constructor of the reply overrides the class default with a constant', rules=('R16.9',), edits=[
+        (_M, _RES_UID, _RES_UID + "            from_dict['fwd'] = False\n")]),
+    dict(name='R16.9 sibling site: the handler names the flag of the request when it builds the reply', rules=('R16.9',), edits=[
+        (_C, _RES_SITE, "        rpc_res = RPCResultMessage(rpc_req=msg, val=val, out=out, err=err,\n                                   exc=exc, fwd=msg['fwd'])\n")]),
+    dict(name='R16.9 sibling site: the handler copies the origin tag of the request into the reply', rules=('R16.9',), edits=[
+        (_C, _RES_SITE, "        rpc_res = RPCResultMessage(rpc_req=msg, val=val, out=out, err=err,\n                                   exc=exc, origin=msg.get('origin'))\n")]),
+    dict(name='R16.9 reply inherits the flag, forwarder in the callbacks-per-direction shape (seed C16-r7)', rules=('R16.9',), edits=[
+        (_M, _RES_UID, _RES_UID + "            from_dict['fwd'] = rpc_req['fwd']\n"),
+        (_S, _FWD_OLD, _FWD_R7)]),
+    dict(name='R16.9 reply inherits the flag, forwarder split into predicates per wire (seed C16-r5)', rules=('R16.9',), edits=[
+        (_M, _RES_UID, _RES_UID + "            from_dict['fwd'] = rpc_req['fwd']\n"),
+        (_S, _FWD_OLD, _FWD_R5)]),
+]
+
+SILENT += [
+    dict(name='reply inherits the flag, but no forwarder rewrites it (the request arrives as it was published)', edits=[
+        (_M, _RES_UID, _RES_UID + "            from_dict['fwd'] = rpc_req['fwd']\n"),
+        (_S, _CLEAR, "")]),
+    dict(name='reply constructor names the class default explicitly', edits=[
+        (_M, _RES_UID, _RES_UID + "            from_dict['fwd'] = True\n")]),
+    dict(name='reply constructor: uid added with dict(), guard in one expression', edits=[
+        (_M, _RES_CTOR, "        if rpc_req:\n            from_dict = dict(from_dict or {}, uid=rpc_req['uid'])\n\n" + _RES_SUPER)]),
+    dict(name='reply constructor: uid handed over as a keyword item', edits=[
+        (_M, _RES_CTOR, "        if rpc_req:\n            kwargs['uid'] = rpc_req['uid']\n\n" + _RES_SUPER)]),
+    dict(name='reply constructor: uid read as an attribute, early form of the guard', edits=[
+        (_M, _RES_CTOR, "        if not rpc_req:\n            super().__init__(from_dict, **kwargs)\n            return\n\n        items = dict(from_dict) if from_dict else dict()\n        items['uid'] = rpc_req.uid\n\n        super().__init__(items, **kwargs)\n")]),
+    dict(name='reply constructor: base class constructor called by name', edits=[
+        (_M, _RES_SUPER, "        RPBaseMessage.__init__(self, from_dict, **kwargs)\n")]),
+    dict(name='reply constructor: uid stored after the base constructor', edits=[
+        (_M, _RES_CTOR, "        super().__init__(from_dict, **kwargs)\n\n        if rpc_req:\n            self['uid'] = rpc_req['uid']\n")]),
+    dict(name='reply constructor: copy of the uid extracted into a helper', edits=[
+        (_M, _RES_CTOR, "        from_dict = self._reply_items(rpc_req, from_dict)\n\n" + _RES_SUPER +
+             "\n\n    # --------------------------------------------------------------------------\n    #\n    @staticmethod\n    def _reply_items(rpc_req, items):\n\n        if not rpc_req:\n            return items\n\n        items = dict(items or {})\n        items['uid'] = rpc_req['uid']\n\n        return items\n")]),
+    dict(name='reply built with the request as positional argument and the flag named', edits=[
+        (_C, _RES_SITE, "        rpc_res = RPCResultMessage(msg, val=val, out=out, err=err, exc=exc,\n                                   fwd=True)\n")]),
+    dict(name='reply built in an extracted helper of the component', edits=[
+        (_C, _RES_SITE, "        rpc_res = self._rpc_reply(msg, val, out, err, exc)\n"),
+        (_C, _RPC_AT, "    # --------------------------------------------------------------------------\n    #\n    def _rpc_reply(self, req, val, out, err, exc):\n\n        return RPCResultMessage(rpc_req=req, val=val, out=out, err=err, exc=exc)\n\n\n" + _RPC_AT)]),
+]
+
+
+# ------------------------------------------------------------------------------
+# round 6: the seeds C16-i1 .. i6 and the same slips at sibling sites
+#
+_I1_FROM = "                        self._log.debug_9('XXX >=! fwd %s to topic:%s: %s',\n                                          src, tgt, msg)\n                    return\n"
+_I1_FLAG = "                                          self._module)\n                    return\n"
+_I1_ORIG = "                        self._log.debug_9('XXX =>| fwd %s to topic:%s: %s',\n                                          src, tgt, msg)\n                    return\n"
+_I1_PUT = "                    self._log.debug_3('XXX =>> fwd %s to topic:%s: %s',\n                                      src, tgt, msg)\n                publisher.put(tgt, msg)\n"
+_ADV_CALL = "        super().advance(things=things, state=state, publish=publish, push=push,\n                        qname=qname, ts=ts, fwd=fwd, prof=prof)\n"
+_ADV_NOFWD = "        super().advance(things=things, state=state, publish=publish, push=push,\n                        qname=qname, ts=ts, prof=prof)\n"
+_CLI_BR = "            publish = True\n            push    = False\n\n"
+_CLI_TAIL = "\n\n# ------------------------------------------------------------------------------\n#\nclass AgentComponent"
+_AG_BR = "              #     thing['state'] = state\n\n            publish = True\n            push    = False\n\n"
+_W_CTRL_UP = "        self.crosswire_pubsub(src=rpc.CONTROL_PUBSUB,\n                              tgt=rpc.PROXY_CONTROL_PUBSUB,\n                              from_proxy=False)\n"
+_W_CTRL_DN = "        self.crosswire_pubsub(src=rpc.PROXY_CONTROL_PUBSUB,\n                              tgt=rpc.CONTROL_PUBSUB,\n                              from_proxy=True)\n"
+_W_STATE_UP = "        self.crosswire_pubsub(src=rpc.STATE_PUBSUB,\n                              tgt=rpc.PROXY_STATE_PUBSUB,\n                              from_proxy=False)\n"
+_W_STATE_DN = "        self.crosswire_pubsub(src=rpc.PROXY_STATE_PUBSUB,\n                              tgt=rpc.STATE_PUBSUB,\n                              from_proxy=True)\n"
+
+
+def _under(cond, block):
+    return "        if %s:\n" % cond + ''.join(
+        '    ' + l + '\n' for l in block.splitlines())
+
+
+MUTATIONS += [
+    # i1: a statement moved into a block by indentation
+    dict(name='R16.1 seed C16-i1: return of the own-origin guard (from proxy) indented under the log switch', rules=('R16.1',), edits=[
+        (_S, _I1_FROM, _I1_FROM.replace("                    return\n", "                        return\n"))]),
+    dict(name='R16.1 return of the no-flag guard (to proxy) indented under the log switch', rules=('R16.1',), edits=[
+        (_S, _I1_FLAG, _I1_FLAG.replace("                    return\n", "                        return\n"))]),
+    dict(name='R16.1 return of the foreign-origin guard (to proxy) indented under the log switch', rules=('R16.1',), edits=[
+        (_S, _I1_ORIG, _I1_ORIG.replace("                    return\n", "                        return\n"))]),
+    dict(name='R16.1 put on the proxy channel indented under the log switch', rules=('R16.1',), edits=[
+        (_S, _I1_PUT, _I1_PUT.replace("                publisher.put(tgt, msg)\n", "                    publisher.put(tgt, msg)\n"))]),
+    # i2: two names swapped
+    dict(name='R16.8 seed C16-i2 at the sibling entry: control channel advertises the sub endpoint of the state bridge', rules=('R16.8',), edits=[
+        (_X, _PX_CTRL, _PX_CTRL.replace("str(proxy_cp.addr_sub)", "str(proxy_sp.addr_sub)"))]),
+    dict(name='R16.2 publisher address looked up for the source channel', rules=('R16.2',), edits=[
+        (_S, "        url_pub = reg['bridges.%s.addr_pub' % tgt.lower()]", "        url_pub = reg['bridges.%s.addr_pub' % src.lower()]")]),
+    dict(name='R16.2 publisher created on the source channel', rules=('R16.2',), edits=[
+        (_S, "        publisher = ru.zmq.Publisher(channel=tgt, path=path, url=url_pub,", "        publisher = ru.zmq.Publisher(channel=src, path=path, url=url_pub,")]),
+    # i3: an argument dropped
+    dict(name='R16.3 seed C16-i3: agent advance no longer passes fwd to the base class', rules=('R16.3',), edits=[
+        (_C, _AG_BR + _ADV_CALL, _AG_BR + _ADV_NOFWD)]),
+    dict(name='R16.3 client advance no longer passes fwd to the base class', rules=('R16.3',), edits=[
+        (_C, _CLI_BR + _ADV_CALL + _CLI_TAIL, _CLI_BR + _ADV_NOFWD + _CLI_TAIL)]),
+    dict(name='R16.3 agent advance calls the base positionally, fwd left out', rules=('R16.3',), edits=[
+        (_C, _AG_BR + _ADV_CALL, _AG_BR + "        super().advance(things, state, publish, push, qname, ts, prof=prof)\n")]),
+    # i4: wiring that is right for the common case only
+    dict(name='seed C16-i4: state uplink only wired for agent_0 sessions', rules=('R16.5',), edits=[
+        (_S, _W_STATE_UP, _under("self._role == self._AGENT_0", _W_STATE_UP))]),
+    dict(name='control uplink only wired for the primary session', rules=('R16.5',), edits=[
+        (_S, _W_CTRL_UP, _under("self._role == self._PRIMARY", _W_CTRL_UP))]),
+    dict(name='state downlink only wired for the primary session', rules=('R16.5',), edits=[
+        (_S, _W_STATE_DN, _under("self._role == self._PRIMARY", _W_STATE_DN))]),
+    dict(name='state channel not wired for the primary session (early return)', rules=('R16.5',), edits=[
+        (_S, _W_CTRL_DN + "\n", _W_CTRL_DN + "\n        if self._role != self._AGENT_0:\n            return\n\n")]),
+    # i6: the flag of the caller overridden for particular states
+    dict(name='R16.3 seed C16-i6: client advance forces fwd for FAILED / CANCELED', rules=('R16.3',), edits=[
+        (_C, _CLI_BR + _ADV_CALL + _CLI_TAIL, "            publish = True\n            push    = False\n            fwd     = True\n\n" + _ADV_CALL + _CLI_TAIL)]),
+    dict(name='R16.3 agent advance forces fwd for FAILED / CANCELED', rules=('R16.3',), edits=[
+        (_C, _AG_BR + _ADV_CALL, "              #     thing['state'] = state\n\n            publish = True\n            push    = False\n            fwd     = True\n\n" + _ADV_CALL)]),
+    dict(name='R16.3 base advance forwards every update of a final state', rules=('R16.3',), edits=[
+        (_C, "                                            'arg': to_publish,\n                                            'fwd': fwd})",
+             "                                            'arg': to_publish,\n                                            'fwd': fwd or state in rps.FINAL})")]),
+    dict(name='R16.3 client advance keeps unpushed updates local (flag cleared when push is off)', rules=('R16.3',), edits=[
+        (_C, _CLI_BR + _ADV_CALL + _CLI_TAIL, _CLI_BR + "        if not push:\n            fwd = False\n\n" + _ADV_CALL + _CLI_TAIL)]),
 ]
 
 from .c14 import corpus_variants          # noqa: E402
